@@ -23,6 +23,7 @@ NextS == /\ Len(hist) < MaxLen
          /\ \E f \in Flags, p \in Pol :
               /\ st' = Apply(st, f, p) /\ hist' = Append(hist, <<f, p>>)
               /\ Emit(Untouched, hist')
+              /\ (hist = <<>> => Emit(Untouched, <<>>))      \* the fresh builder, no call at all: every flag wildcarded
 NextR == \/ /\ Len(hist) < MaxLen
             /\ \E f \in Flags, p \in Pol :
                  st' = Apply(st, f, p) /\ hist' = Append(hist, <<f, p>>)
